@@ -1,10 +1,33 @@
 /* Proof units over Lib/core/mod.c: lifecycle transitions (C01), notifications (C19), guards. */
+#ifdef V_MSRCS_UNIT
+/* loop contract of the per-kind walk in manage_srcs() (anchor M_VERIF_LOOP(mod_srcs)); the outer loop over the eight kinds is unwound */
+#define V_DROP (flag == RM && stop)
+#define V_OTHERS_DROP(k) ((k) < i ? g_sets[k].len == 0 : ((k) > i ? g_sets[k].len == g_L0[k] : 1))
+#define M_VERIF_LOOPSPEC_mod_srcs \
+    __CPROVER_assigns(m_itr, m_idx, ret, g_bit->idx, g_bit->removed, g.mit_freed, g_psrc->type, g_sets[0].len, g_sets[1].len, g_sets[2].len, g_sets[3].len, g_sets[4].len, g_sets[5].len, g_sets[6].len, g_sets[7].len, \
+                      g.itr_rm_calls, g.tick_poll_calls, g.tick_poll_flag, g_errno, g.starttask_calls, g.flush_calls) \
+    __CPROVER_loop_invariant(0 <= i && i < M_SRC_TYPE_END) \
+    __CPROVER_loop_invariant(m_itr == NULL || (m_itr == (m_bst_itr_t *)g_bit && g_bit->t == (m_bst_t *)&g_sets[i] && !g_bit->removed && g_bit->idx < g_sets[i].len)) \
+    __CPROVER_loop_invariant(!V_DROP || (V_OTHERS_DROP(0) && V_OTHERS_DROP(1) && V_OTHERS_DROP(2) && V_OTHERS_DROP(3) && V_OTHERS_DROP(4) && V_OTHERS_DROP(5) && V_OTHERS_DROP(6) && V_OTHERS_DROP(7) \
+                                         && g_sets[i].len <= g_L0[i] && (m_itr == NULL ? g_sets[i].len == 0 : g_bit->idx == 0) \
+                                         && g.itr_rm_calls == g_r0 + g_PS[i] + (g_L0[i] - g_sets[i].len) && g.tick_poll_calls == g_p0 && g.starttask_calls == g_t0 \
+                                         && g.flush_calls == g_f0 + (i > 0 ? g_L0[0] : g_L0[0] - g_sets[0].len))) \
+    __CPROVER_loop_invariant(V_DROP || (g_sets[0].len == g_L0[0] && g_sets[1].len == g_L0[1] && g_sets[2].len == g_L0[2] && g_sets[3].len == g_L0[3] && g_sets[4].len == g_L0[4] && g_sets[5].len == g_L0[5] \
+                                        && g_sets[6].len == g_L0[6] && g_sets[7].len == g_L0[7] && g.itr_rm_calls == g_r0 && g.flush_calls == g_f0 \
+                                        && g.tick_poll_calls == g_p0 + g_PS[i] + (m_itr == NULL ? g_L0[i] : g_bit->idx) && (g.tick_poll_calls == g_p0 || g.tick_poll_flag == flag) \
+                                        && g.starttask_calls == g_t0 + ((flag == ADD && g_pollinit_ret == 0) ? (i > M_SRC_TYPE_TASK ? g_L0[M_SRC_TYPE_TASK] : (i == M_SRC_TYPE_TASK ? (m_itr == NULL ? g_L0[i] : g_bit->idx) : 0)) : 0)))
+#endif
 #include "vmodel.h"
+#ifdef V_MSRCS_UNIT
+static struct _bst g_sets[M_SRC_TYPE_END];
+#endif
 #include "core/mod.c"            /* the real translation unit, unmodified */
 #include "abs.contracts.h"
 #include "cb.contracts.h"
 #ifdef V_RESET_UNIT
 #include "fd.contracts.h"
+#elif defined(V_MSRCS_UNIT)
+#include "msrcs.contracts.h"
 #elif defined(V_REG_UNIT)
 #include "reg.contracts.h"
 #else
@@ -16,7 +39,7 @@
 V_DEFINE_INPUTS(H_INPUTS)
 #include "vbuild.h"
 
-#if !defined(V_RESET_UNIT) && !defined(V_REG_UNIT)
+#if !defined(V_RESET_UNIT) && !defined(V_REG_UNIT) && !defined(V_MSRCS_UNIT)
 static void build_mod(void) {
     build();
     V_ASSUME(vin_others < ((uint64_t)1 << 59) && vin_ips_ret <= 0 && vin_ms_ret <= 0 && vin_ips_ret > -200 && vin_ms_ret > -200);
@@ -125,6 +148,23 @@ void h_mod_register(void) {
     int r = m_mod_register(nm, &g_modref, &hk, (m_mod_flags)(vin_ms_ret & ~M_MOD_NAME_DUP), NULL);
     V_COVER("reg-fresh-name", r == 0 && !vin_hook); V_COVER("reg-eexist", r == -EEXIST); V_COVER("reg-replace", r == 0 && vin_hook); V_COVER("reg-replace-dereg-fails", vin_hook && r != 0 && r != -EEXIST);
     V_COVER("reg-new-allows-replace-old-does-not", r == -EEXIST && ((vin_ms_ret & M_MOD_ALLOW_REPLACE) != 0));
+    V_CANARY();
+}
+#endif
+
+#ifdef V_MSRCS_UNIT
+void h_manage_srcs(void) {
+    build();
+    V_ASSUME(vin_maprm_ret <= 0 && vin_maprm_ret > -200);
+    g_bit = malloc(sizeof *g_bit); g_psrc = malloc(sizeof *g_psrc); __CPROVER_assume(g_bit && g_psrc); g_bit->t = NULL; g_bit->idx = 0; g_bit->removed = false; g_psrc->mod = g_mod; g_psrc->type = M_SRC_TYPE_FD;
+    uint64_t lens[8] = { vin_nmods & 3, vin_others, vin_running, (vin_nmods >> 2) & 3, (vin_nmods >> 4) & 3, (vin_nmods >> 6) & 3, vin_action_ctr, (vin_nmods >> 8) & 3 };
+    g_PS[0] = 0;
+    for (int k = 0; k < M_SRC_TYPE_END; k++) { V_ASSUME(lens[k] < 1000000); g_sets[k].len = lens[k]; g_sets[k].internal = 0; g_L0[k] = lens[k]; g_PS[k + 1] = g_PS[k] + lens[k]; g_mod->srcs[k] = (m_bst_t *)&g_sets[k]; }
+    g_pollinit_ret = vin_maprm_ret;
+    g_p0 = g.tick_poll_calls; g_r0 = g.itr_rm_calls; g_fr0 = g.mit_freed; g_f0 = g.flush_calls; g_t0 = g.starttask_calls;
+    int r = manage_srcs(g_mod, g_ctx, vin_flag ? RM : ADD, vin_from_user & 1);
+    V_COVER("stop-drops-many", vin_flag && (vin_from_user & 1) && g.itr_rm_calls == 1203 && vin_others == 1000); V_COVER("pause-keeps", vin_flag && !(vin_from_user & 1) && g.tick_poll_calls == 7 && vin_running == 5);
+    V_COVER("start-adds-and-starts-tasks", !vin_flag && r == 0 && g.starttask_calls == 4 && vin_action_ctr == 4); V_COVER("no-sources", g_PS[8] == 0);
     V_CANARY();
 }
 #endif
